@@ -392,6 +392,12 @@ def c03Line (st : State) (w : List String) : Option (State × String) :=
       let r := readFailingStream st.world st.cfg d readFuel
       some (st.withCfg r.cfg, s!"0 {showLog r.dtorLog}")
     | none => some (st, "bad-op")
+  | ["read_stream_fail1", _, d] =>       -- the failure is transient (EOF afterwards): the outcome is the same
+    match unhex d with
+    | some d =>
+      let r := readFailingStream st.world st.cfg d readFuel
+      some (st.withCfg r.cfg, s!"0 {showLog r.dtorLog}")
+    | none => some (st, "bad-op")
   | ["read_stream_eagain", d] =>
     match unhex d with
     | some d =>
